@@ -40,7 +40,7 @@ RULE = (
     'sizes 1..n (40% of the contexts sample every stratum completely), 1-60 individuals (int or float choice column, default or '
     'arbitrary index), 0-2 combined variables and a 2-4 term utility given as ASTs, optional second partition (over all or part '
     'of the alternatives), nested / cross-nested structures; plus 7 fixed directed contexts. Each context is merged 3 (quick) / '
-    '8 (thorough) times and sampled directly 15 / 30 times with different RNG states. non-trivial = a database returned by '
+    '6 (thorough) times and sampled directly 15 / 30 times with different RNG states. non-trivial = a database returned by '
     'sample_and_merge was judged row by row; distinct = hash of (specification, matrix of sampled ids)'
 )
 ASSUMPTIONS = [
@@ -52,11 +52,11 @@ ASSUMPTIONS = [
     'a context whose partial second sample leaves a nest of a listed alternative empty has log(0) in its formula: not judged (counted)',
     'attributes, ids, corrections and weights are compared exactly (corrections at 1e-12); combined variables at rtol 1e-12',
 ]
-MIN_DISTINCT = {'quick': 450, 'thorough': 8000}
+MIN_DISTINCT = {'quick': 450, 'thorough': 4000}
 CASE_TIMEOUT = 300
 
-N_RANDOM = {'quick': 220, 'thorough': 2000}
-N_MERGE = {'quick': 3, 'thorough': 8}
+N_RANDOM = {'quick': 220, 'thorough': 1200}
+N_MERGE = {'quick': 3, 'thorough': 6}
 N_LL = {'quick': 2, 'thorough': 3}
 N_DIRECT = {'quick': 15, 'thorough': 30}
 
@@ -113,9 +113,12 @@ class _Judge:
         self.spec = spec
         self.m = model
         self.fired = set()
+        self.retag = None  # 'recycled' while the database read back from the file is judged
 
     def viol(self, mech, msg, **wit):
         # one witness per mechanism and case is enough
+        if self.retag and mech.startswith('merged-'):
+            mech = self.retag + mech[len('merged'):]
         if mech in self.fired:
             self.rec.c('violations_further_witnesses')
             return
@@ -335,7 +338,9 @@ class _Judge:
         try:
             expr = builder()
         except BaseException as e:
-            self.viol(f'{kind}-model-construction-raises-{type(e).__name__}', f'{where}: {type(e).__name__}: {e}')
+            import traceback
+
+            self.viol(f'{kind}-model-construction-raises-{type(e).__name__}', f'{where}: {type(e).__name__}: {e} | {traceback.format_exc()[-900:]}')
             return
         try:
             got = np.asarray(expr.get_value_c(database=db, prepare_ids=True), dtype=float)
@@ -494,6 +499,7 @@ def run_case(case):
     elif spec['model'] == 'cnl':
         builders['cnl'] = modelgen.get_cross_nested_logit
     seen_sets = set()
+    last = None
     for r in range(N_MERGE[tier]):
         np.random.seed((rng_base + 7 * r) % (2 ** 32 - 1))
         ct.reset()
@@ -513,6 +519,7 @@ def run_case(case):
         if res is None:
             continue
         ids_main, ids_mev, ok_rows = res
+        last = res
         key = stable_hash([spec, ids_main, ids_mev])
         rec.key(key)
         seen_sets.add(key)
@@ -527,6 +534,20 @@ def run_case(case):
                 J.likelihood(kind, b, db, ids_main, ids_mev, where, with_biogeme=(r == 0 and (case['mode'] == 'directed' or case.get('i', 0) % 3 == 0)))
     if len(seen_sets) > 1:
         rec.c('contexts_where_resampling_gave_different_sets')
+    # the same entry point with recycle=True returns the choice sets written by the last call: same protocol
+    if last is not None:
+        ct.reset()
+        try:
+            db2 = generator.sample_and_merge(recycle=True)
+            J.retag = 'recycled'
+            res2 = J.database(db2.data, f'{tag} recycle=True')
+            J.retag = None
+            rec.c('recycled_databases_judged')
+            if res2 is not None and (res2[0] != last[0] or res2[1] != last[1]):
+                J.viol('recycled-choice-sets-differ-from-those-returned', f'{tag}: sample_and_merge(recycle=True) lists other alternatives than the call that wrote the file')
+        except BaseException as e:
+            J.retag = None
+            J.viol(f'recycled-sample_and_merge-raises-{type(e).__name__}', f'{tag}: {type(e).__name__}: {e}')
     # direct calls with further RNG states: every alternative can be the chosen one
     try:
         sampler = SamplingOfAlternatives(ctx)
@@ -564,7 +585,7 @@ def finalize(cov, tier):
             'combined_variables_compared', 'combined_variables_compared_second_sample',
             'sampled_ll_compared_logit', 'sampled_ll_compared_nested', 'sampled_ll_compared_cnl',
             'complete_sampling_ll_compared_logit', 'complete_sampling_ll_compared_nested',
-            'biogeme_init_likelihood_compared', 'contexts_where_resampling_gave_different_sets',
+            'biogeme_init_likelihood_compared', 'contexts_where_resampling_gave_different_sets', 'recycled_databases_judged',
             'contexts_with_a_stratum_of_requested_size_1', 'contexts_with_arbitrary_individual_index']
     for k in need:
         if cov.get(k, 0) == 0:
